@@ -107,6 +107,8 @@ LAYERS += [
     Layer("StrReverse_dq", lambda p: b'StrReverse("' + p[::-1] + b'")', "vba.string", "vba.reverse", lambda p: len(p) >= 1 and not any(c in p for c in b'"`\\')),
 ]
 LAYERS.append(Layer("ps_bytes", lambda p: b",".join((b"0x%02x" % c) if i % 3 else (b"%d" % c) for i, c in enumerate(p)), "powershell.bytes", "", lambda p: len(p) >= 501))
+LAYERS.append(Layer("ps_bytes_padded", lambda p: b", ".join((b"%03d" % c) for c in p), "powershell.bytes", "", lambda p: len(p) >= 501))
+LAYERS.append(Layer("ps_bytes_HEX", lambda p: b",".join((b"0X%02X" % c) if i % 2 else (b"%d" % c) for i, c in enumerate(p)), "powershell.bytes", "", lambda p: len(p) >= 501 and False))
 BY_NAME = {l.name: l for l in LAYERS}
 
 PAYLOADS = [
